@@ -113,6 +113,12 @@ def pred_cp_normalize(inp):
                     return f"zero column {r} of factor {k} did not stay zero with weight 0"
             elif abs(n[r] - 1) > 1e-9:
                 return f"column {r} of factor {k} has norm {n[r]!r} after normalisation"
+    # the (None, factors) form: weights default to 1
+    st, out = call(cp_normalize, (None, cps(fs)))
+    if st != "ok":
+        return f"cp_normalize((None, factors)) raised: {out}"
+    if not close(dense_cp(np.asarray(out[0]), [np.asarray(f) for f in out[1]]), dense_cp(np.ones(len(w)), fs)):
+        return "cp_normalize((None, factors)) changed the represented tensor"
     return None
 
 
@@ -173,6 +179,29 @@ def pred_cp_permute(inp):
     best = max(sum(M[i, p[i]] for i in range(R)) for p in itertools.permutations(range(R)))
     if np.trace(M) < best - 1e-9:
         return f"components are not aligned with the reference: congruence {np.trace(M)!r} < optimum {best!r}"
+    # list form: the same tensor and a column-rotated, rescaled copy of it; every entry keeps its own tensor
+    rot = list(range(1, R)) + [0]
+    t2w, t2fs = w[rot] * 2.0, [f[:, rot] for f in fs]
+    lst = [CPTensor((np.array(w, copy=True), cps(fs))), CPTensor((np.array(t2w, copy=True), cps(t2fs)))]
+    keep = list(lst)
+    st, out = call(cp_permute_factors, CPTensor((np.array(rw, copy=True), cps(rfs))), lst)
+    if st != "ok":
+        return f"cp_permute_factors(list of tensors) raised: {out}"
+    pts, perms = out
+    if len(pts) != 2 or len(perms) != 2:
+        return "cp_permute_factors(list of tensors) did not return one tensor and one assignment per entry"
+    for k, (src_w, src_fs) in enumerate([(w, fs), (t2w, t2fs)]):
+        pk = [int(x) for x in perms[k]]
+        if sorted(pk) != list(range(R)):
+            return f"list form: assignment {pk} of entry {k} is not a permutation"
+        if not close(dense_cp(np.asarray(pts[k].weights), [np.asarray(f) for f in pts[k].factors]), dense_cp(src_w, src_fs)):
+            return f"list form: entry {k} no longer represents its tensor"
+        if not (np.array_equal(np.asarray(pts[k].weights), src_w[pk]) and all(np.array_equal(np.asarray(f2), f[:, pk]) for f2, f in zip(pts[k].factors, src_fs))):
+            return f"list form: entry {k} is not its operand with the returned assignment applied"
+    if not (len(lst) == 2 and lst[0] is keep[0] and lst[1] is keep[1]):
+        return "cp_permute_factors replaced entries of the caller's list"
+    if not (same_arrays(list(lst[0].factors), fs) and same_arrays(list(lst[1].factors), t2fs)):
+        return "cp_permute_factors(list of tensors) modified an operand"
     return None
 
 
@@ -270,6 +299,24 @@ def pred_pf2_normalise(inp):
                     return f"zero column {r} of factor {k} did not stay zero with weight 0"
             elif abs(n[r] - 1) > 1e-9:
                 return f"column {r} of factor {k} has norm {n[r]!r} after normalisation"
+    # a PARAFAC2 tensor passes through from_CPTensor when parafac2_tensor_ok=True and is refused otherwise
+    src = Parafac2Tensor((np.array(w, copy=True), cps([A, B, Cm]), cps(Ps)))
+    st, again = call(Parafac2Tensor.from_CPTensor, src, parafac2_tensor_ok=True)
+    if st != "ok":
+        return f"from_CPTensor(parafac2 tensor, parafac2_tensor_ok=True) raised: {again}"
+    for s1, s2 in zip(pf2_slices(w, A, B, Cm, Ps), pf2_slices(np.asarray(again[0]), *[np.asarray(f) for f in again[1]], [np.asarray(p) for p in again[2]])):
+        if not close(s2, s1):
+            return "a PARAFAC2 tensor passed through from_CPTensor(parafac2_tensor_ok=True) represents different slices"
+    st, again = call(Parafac2Tensor.from_CPTensor, src)
+    if st == "ok":
+        return "from_CPTensor accepted a PARAFAC2 tensor without parafac2_tensor_ok=True"
+    st, out = call(parafac2_normalise, (None, cps([A, B, Cm]), cps(Ps)))
+    if st != "ok":
+        return f"parafac2_normalise((None, factors, projections)) raised: {out}"
+    one = np.ones(len(w))
+    for s1, s2 in zip(pf2_slices(one, A, B, Cm, Ps), pf2_slices(np.asarray(out[0]), *[np.asarray(f) for f in out[1]], [np.asarray(p) for p in out[2]])):
+        if not close(s2, s1):
+            return "parafac2_normalise((None, factors, projections)) changed a represented slice"
     return None
 
 
@@ -307,6 +354,13 @@ def pred_from_cp(inp):
     for P in P2:
         if not close(P.T @ P, np.eye(P.shape[1])):
             return "projection is not orthonormal"
+    # a PARAFAC2 tensor passes through when parafac2_tensor_ok=True (and is refused otherwise)
+    st, again = call(Parafac2Tensor.from_CPTensor, out, parafac2_tensor_ok=True)
+    if st != "ok":
+        return f"from_CPTensor(parafac2 tensor, parafac2_tensor_ok=True) raised: {again}"
+    for i, s in enumerate(pf2_slices(np.asarray(again[0]), *[np.asarray(f) for f in again[1]], [np.asarray(p) for p in again[2]])):
+        if not close(s, full[i]):
+            return f"slice {i} changed when a PARAFAC2 tensor is passed through from_CPTensor"
     return None
 
 
@@ -372,12 +426,77 @@ def pred_roundtrip(inp):
     return None
 
 
-PRED = {"cp_normalize": pred_cp_normalize, "cp_flip_sign": pred_cp_flip_sign, "cp_permute_factors": pred_cp_permute,
+def _cp_operand(inp):
+    from tensorly.cp_tensor import CPTensor
+    w = None if inp["w_none"] else np.array(inp["w"], copy=True)
+    return CPTensor((w, cps(inp["fs"]))) if inp["is_class"] else (w, cps(inp["fs"]))
+
+
+def pred_cp_mode_dot_form(inp):
+    """every accepted form of the operand (CPTensor object / plain tuple, weights None) gives the mode product"""
+    from tensorly.cp_tensor import cp_mode_dot
+    w_eff = np.ones(len(inp["w"]), dtype=inp["w"].dtype) if inp["w_none"] else inp["w"]
+    st, out = call(cp_mode_dot, _cp_operand(inp), np.array(inp["x"], copy=True), inp["mode"], keep_dim=inp["keep_dim"], copy=inp["copy"])
+    if st != "ok":
+        return f"cp_mode_dot raised: {out}"
+    exp = dense_mode_dot(dense_cp(w_eff, inp["fs"]), inp["x"], inp["mode"], inp["keep_dim"])
+    w2 = np.ones(len(w_eff)) if out[0] is None else np.asarray(out[0])
+    if not close(dense_cp(w2, [np.asarray(f) for f in out[1]]), exp, exact=is_int(exp)):
+        return "cp_mode_dot does not represent the mode product of the dense tensor"
+    return None
+
+
+def pred_cp_flip_sign_form(inp):
+    from tensorly.cp_tensor import cp_flip_sign
+    import tensorly as tl
+    w_eff = np.ones(len(inp["w"]), dtype=inp["w"].dtype) if inp["w_none"] else inp["w"]
+    st, out = call(cp_flip_sign, _cp_operand(inp), inp["mode"], tl.sum)
+    if st != "ok":
+        return f"cp_flip_sign raised: {out}"
+    if not close(dense_cp(np.asarray(out[0]), [np.asarray(f) for f in out[1]]), dense_cp(w_eff, inp["fs"]), exact=True):
+        return "cp_flip_sign changed the represented tensor"
+    return None
+
+
+def _form(f):
+    i = f.get("inputs") or {}
+    return bool(i.get("is_class")), bool(i.get("copy")), bool(i.get("w_none"))
+
+
+CLASSIFIERS = {
+    # exactly the three crash classes of known_findings.d/C04.json; anything else on these entry points stays a violation
+    "cp_mode_dot_tuple_inplace": lambda f: f["predicate"] == "cp_mode_dot_form" and not _form(f)[0] and not _form(f)[1]
+        and "AttributeError" in f["message"] and "'shape'" in f["message"],
+    "cp_mode_dot_tuple_none_weights": lambda f: f["predicate"] == "cp_mode_dot_form" and not _form(f)[0] and _form(f)[1] and _form(f)[2]
+        and "ValueError" in f["message"] and "len(weights)=()" in f["message"],
+    "cp_flip_sign_tuple_none_weights": lambda f: f["predicate"] == "cp_flip_sign_form" and not _form(f)[0] and _form(f)[2]
+        and "TypeError" in f["message"] and "NoneType" in f["message"],
+}
+
+
+def _load_known_with_snippet(prop):
+    """common.load_known reads the merged known_findings.json (written by the coordinator's mkmanifest);
+    until that has been regenerated, the entries of known_findings.d/C04.json are added here"""
+    import json, os
+    base = _orig_load_known(prop)
+    p = os.path.join(C.VERIF, "known_findings.d", f"{prop}.json")
+    if os.path.exists(p):
+        have = {k.get("id") for k in base}
+        base = base + [k for k in json.load(open(p)).get("findings", []) if k.get("property") == prop and k.get("id") not in have]
+    return base
+
+
+_orig_load_known = C.load_known
+
+
+PRED = {"cp_mode_dot_form": pred_cp_mode_dot_form, "cp_flip_sign_form": pred_cp_flip_sign_form,
+        "cp_normalize": pred_cp_normalize, "cp_flip_sign": pred_cp_flip_sign, "cp_permute_factors": pred_cp_permute,
         "cp_mode_dot": pred_cp_mode_dot, "tucker_mode_dot": pred_tucker_mode_dot, "tucker_normalize": pred_tucker_normalize,
         "parafac2_normalise": pred_pf2_normalise, "pad_tt_rank": pred_pad_tt, "from_CPTensor": pred_from_cp,
         "svd_compress_tensor_slices": pred_compress, "svd_decompress_parafac2_tensor": pred_decompress,
         "svd_compress_decompress": pred_roundtrip}
-ENTRY = {"cp_normalize": "tensorly.cp_tensor.cp_normalize", "cp_flip_sign": "tensorly.cp_tensor.cp_flip_sign",
+ENTRY = {"cp_mode_dot_form": "tensorly.cp_tensor.cp_mode_dot", "cp_flip_sign_form": "tensorly.cp_tensor.cp_flip_sign",
+         "cp_normalize": "tensorly.cp_tensor.cp_normalize", "cp_flip_sign": "tensorly.cp_tensor.cp_flip_sign",
          "cp_permute_factors": "tensorly.cp_tensor.cp_permute_factors", "cp_mode_dot": "tensorly.cp_tensor.cp_mode_dot",
          "tucker_mode_dot": "tensorly.tucker_tensor.tucker_mode_dot", "tucker_normalize": "tensorly.tucker_tensor.tucker_normalize",
          "parafac2_normalise": "tensorly.parafac2_tensor.parafac2_normalise", "pad_tt_rank": "tensorly.tt_tensor.pad_tt_rank",
@@ -551,8 +670,19 @@ def run(chk):
         cases.append(f"({len(cases)}%nat, {body})")
         meta.append(descr)
 
+    def emit(body_fn, descr):
+        """build one case literal; a result that cannot even be printed (wrong rank, ragged, non-numeric) is a failing input"""
+        try:
+            add_case(body_fn(), descr)
+        except Exception as e:  # noqa
+            chk.finding("tensorly." + str(descr[0]), {"call": [str(x) for x in descr]},
+                        f"malformed result of {descr[0]}: {type(e).__name__}: {e}"[:300], "malformed_output")
+
     def judge(pname, inp, key, nontrivial=True):
-        msg = PRED[pname](inp)
+        try:
+            msg = PRED[pname](inp)
+        except Exception as e:  # noqa   (the predicates index into the results; on the unchanged tree nothing raises)
+            msg = f"malformed result of {pname}: the predicate could not be evaluated ({type(e).__name__}: {e})"[:300]
         chk.count(key=(pname,) + tuple(key), nontrivial=nontrivial)
         chk.hist("predicate", pname)
         if msg:
@@ -562,13 +692,21 @@ def run(chk):
     def shp(fs):
         return tuple(f.shape[0] for f in fs) + (fs[0].shape[1],)
 
+    # --- (0) corpus of minimised past failures: run first
+    import glob, json, os
+    for fn in sorted(glob.glob(os.path.join(C.VERIF, "corpus", "C04", "*.json"))):
+        e = json.load(open(fn))
+        if e.get("predicate") in PRED:
+            judge(e["predicate"], _rebuild(e["inputs"]), ("corpus", os.path.basename(fn)))
+            chk.hist("corpus", os.path.basename(fn))
+
     # --- (1) cp_to_tensor, cp_flip_sign, cp_mode_dot on integer CP tensors (exact)
     for it in range(150 * mult):
         w, fs, feat = gen_cp(rng)
         N, R = len(fs), len(w)
         st, out = call(cp_to_tensor, CPTensor((w.copy(), cps(fs))))
         exp = "(mk [99999]%nat (@nil Z))" if st != "ok" or not integral(out) else C.ztensor(np.asarray(out).shape, np.asarray(out).ravel().tolist())
-        add_case(f"ZDense {zrow(w)} {zmats(fs)} {exp}", ("cp_to_tensor", shp(fs), feat))
+        emit(lambda: f"ZDense {zrow(w)} {zmats(fs)} {exp}", ("cp_to_tensor", shp(fs), feat))
         chk.count(key=("cp_to_tensor", shp(fs), feat), nontrivial=R > 1 or N > 1)
         if st != "ok" or not close(out, dense_cp(w, fs), exact=True):
             chk.finding("tensorly.cp_tensor.cp_to_tensor", {"w": w, "fs": fs}, f"cp_to_tensor differs from sum_r w_r prod_k A_k[i_k,r]: {out if st != 'ok' else ''}", "cp_to_tensor")
@@ -578,7 +716,7 @@ def run(chk):
             for fname in (("mean", "sum") if it % 2 == 0 else ("mean",)):
                 st, out = call(cp_flip_sign, CPTensor((w.copy(), cps(fs))), mode, _func(fname))
                 lit = zcp_res(st, *(out if st == "ok" else (None, None)))
-                add_case(f"ZFlip {zrow(w)} {zmats(fs)} {mode}%nat {lit}", ("cp_flip_sign", shp(fs), feat, mode, fname))
+                emit(lambda: f"ZFlip {zrow(w)} {zmats(fs)} {mode}%nat {lit}", ("cp_flip_sign", shp(fs), feat, mode, fname))
                 chk.hist("outcome", st)
                 if mode < N:
                     judge("cp_flip_sign", {"w": w, "fs": fs, "mode": mode, "func": fname}, (shp(fs), feat, mode, fname), nontrivial=N > 1)
@@ -595,7 +733,7 @@ def run(chk):
                 st, out = call(cp_mode_dot, CPTensor((w.copy(), cps(fs))), x.copy(), mode, keep_dim=kd, copy=copy)
                 lit = zcp_res(st, *((out[0], out[1]) if st == "ok" else (None, None)))
                 xl = f"(OpMat {zmat(x)})" if x.ndim == 2 else f"(OpVec {zrow(x)})"
-                add_case(f"ZModeDot {zrow(w)} {zmats(fs)} {xl} {mode}%nat {C.boolc(kd)} {lit}", ("cp_mode_dot", shp(fs), feat, mode, kind, kd, copy))
+                emit(lambda: f"ZModeDot {zrow(w)} {zmats(fs)} {xl} {mode}%nat {C.boolc(kd)} {lit}", ("cp_mode_dot", shp(fs), feat, mode, kind, kd, copy))
                 chk.hist("outcome", st); chk.hist("operand", kind); chk.hist("copy", copy)
                 valid = mode < N and kind in ("mat", "vec", "veck") and not (kind == "vec" and N == 1)
                 if valid:
@@ -614,6 +752,30 @@ def run(chk):
                     if st == "ok":
                         chk.finding("tensorly.cp_tensor.cp_mode_dot", {"w": w, "fs": fs, "x": x, "mode": mode, "keep_dim": kd, "copy": copy},
                                     "cp_mode_dot accepted an operand whose size does not match the mode / an order-1 contraction", "cp_mode_dot_invalid")
+
+        # input forms: CPTensor object / plain tuple, weights given / None, copy on / off (one product and one flip per tensor)
+        if it % 2 == 0:
+            mode = rng.randrange(N)
+            kind = rng.choice(["mat", "veck"] + (["vec"] if N > 1 else []))
+            x = gen_operand(rng, fs[mode].shape[0], "vec" if kind == "veck" else kind)
+            kd = kind == "veck"
+            for is_class in (True, False):
+                for w_none in (False, True):
+                    wl = "None" if w_none else f"(Some {zrow(w)})"
+                    for copy in (True, False):
+                        inp = {"w": w, "fs": fs, "x": x, "mode": mode, "keep_dim": kd, "copy": copy, "is_class": is_class, "w_none": w_none}
+                        st, out = call(cp_mode_dot, _cp_operand(inp), x.copy(), mode, keep_dim=kd, copy=copy)
+                        ow = None if st != "ok" else (np.ones(R, dtype=np.int64) if out[0] is None else out[0])
+                        lit = zcp_res(st, *((ow, out[1]) if st == "ok" else (None, None)))
+                        xl = f"(OpMat {zmat(x)})" if x.ndim == 2 else f"(OpVec {zrow(x)})"
+                        emit(lambda: f"ZModeDotApi {C.boolc(is_class)} {C.boolc(copy)} {wl} {zmats(fs)} {xl} {mode}%nat {C.boolc(kd)} {lit}",
+                             ("cp_mode_dot", shp(fs), "form", is_class, copy, w_none, kind))
+                        judge("cp_mode_dot_form", inp, (shp(fs), is_class, copy, w_none, kind), nontrivial=False)
+                    inp = {"w": w, "fs": fs, "mode": mode, "is_class": is_class, "w_none": w_none}
+                    st, out = call(cp_flip_sign, _cp_operand(inp), mode, tl.sum)
+                    lit = zcp_res(st, *(out if st == "ok" else (None, None)))
+                    emit(lambda: f"ZFlipApi {C.boolc(is_class)} {wl} {zmats(fs)} {mode}%nat {lit}", ("cp_flip_sign", shp(fs), "form", is_class, w_none))
+                    judge("cp_flip_sign_form", inp, (shp(fs), is_class, w_none), nontrivial=False)
 
     # --- (2) cp_permute_factors: assignment from the implementation, application compared exactly
     for it in range(60 * mult):
@@ -639,7 +801,7 @@ def run(chk):
             pt, perms = out
             perm = [int(x) for x in perms[0]]
             lit = zcp_res(st, pt.weights, pt.factors)
-            add_case(f"ZPerm {C.nat_list(perm)} {zrow(w.astype(np.int64))} {zmats([f.astype(np.int64) for f in fs])} {lit}", ("cp_permute_factors", shp(fs), feat, tuple(perm)))
+            emit(lambda: f"ZPerm {C.nat_list(perm)} {zrow(w.astype(np.int64))} {zmats([f.astype(np.int64) for f in fs])} {lit}", ("cp_permute_factors", shp(fs), feat, tuple(perm)))
         judge("cp_permute_factors", {"w": w, "fs": fs, "ref_w": rw, "ref_fs": rfs}, (shp(fs), feat, tuple(p0)), nontrivial=R > 1)
 
     # --- (3) cp_normalize on quarter-integer data (toleranced; square-root tape with contract checked in Coq)
@@ -651,13 +813,13 @@ def run(chk):
         tape = [np.sqrt(np.sum(a * a, axis=0)) for a in inter]
         if st == "ok" and all(np.asarray(f).ndim == 2 for f in out[1]) and np.all(np.isfinite(np.asarray(out[0]))):
             tl_ = "[" + "; ".join(qrow(t) for t in tape) + "]"
-            add_case(f"QNorm {tl_} {qrow(w)} {qmats(fs)} ({qrow(np.asarray(out[0]))}, {qmats([np.asarray(f) for f in out[1]])})",
+            emit(lambda: f"QNorm {tl_} {qrow(w)} {qmats(fs)} ({qrow(np.asarray(out[0]))}, {qmats([np.asarray(f) for f in out[1]])})",
                      ("cp_normalize", shp(fs), feat))
         judge("cp_normalize", {"w": w, "fs": fs}, (shp(fs), feat))
         chk.hist("feature", feat)
 
     # --- (4) predicates on the other formats
-    run_other_formats(chk, rng, judge, mult, add_case)
+    run_other_formats(chk, rng, judge, mult, emit)
 
     failing, n_eval, broken = run_shards(chk, cases)
     chk.checker_cmds.append("coqc (vm_compute) on generated build/cases/C04/*.v: Corr.C04.failing")
@@ -678,7 +840,11 @@ def run(chk):
                        "floating-point rounding is outside the theorems: they are stated over an abstract commutative ring / over R; the implementation is compared with the exact model at rtol 1e-9 on quarter-integer data"]
     chk.trusted = ["square roots in cp_normalize & co. are data for the model; the contract s>=0, s*s = sum of squares is checked inside Coq on every case",
                    "the assignment of cp_permute_factors (scipy linear_sum_assignment) is taken from the implementation; its optimality is checked by brute force over all permutations in Python"]
-    return chk.finish({})
+    C.load_known = _load_known_with_snippet
+    try:
+        return chk.finish(CLASSIFIERS)
+    finally:
+        C.load_known = _orig_load_known
 
 
 def gen_tucker(rng, float_=False):
@@ -729,51 +895,199 @@ def gen_tt(rng, ring):
     return [rint(rng, -2, 2, (ranks[i], dims[i], ranks[i + 1])) for i in range(N)]
 
 
-def run_other_formats(chk, rng, judge, mult):
+def sperm(rng, n, m):
+    """n x m integer matrix with orthonormal columns (n >= m): a signed partial permutation"""
+    rows = rng.sample(range(n), m)
+    P = np.zeros((n, m))
+    for c, r in enumerate(rows):
+        P[r, c] = rng.choice([1.0, -1.0])
+    return P
+
+
+def gen_pf2_int(rng):
+    R = rng.randint(1, 3)
+    I, K = rng.randint(1, 3), rng.randint(1, 3)
+    A = rint(rng, -3, 3, (I, R)).astype(np.float64)
+    B = rint(rng, -3, 3, (R, R)).astype(np.float64)
+    Cm = rint(rng, -3, 3, (K, R)).astype(np.float64)
+    w = rint(rng, -2, 3, (R,)).astype(np.float64)
+    Ps = [sperm(rng, rng.randint(R, R + 2), R) for _ in range(I)]
+    return w, [A, B, Cm], Ps
+
+
+def zopt_mats(Ls):
+    return "[" + "; ".join("None" if L is None else f"(Some {zmat(L)})" for L in Ls) + "]" if len(Ls) else "(@nil (option (list (list Z))))"
+
+
+def run_other_formats(chk, rng, judge, mult, emit):
+    import tensorly as tl
+    from tensorly.tucker_tensor import TuckerTensor, tucker_to_tensor, tucker_mode_dot, tucker_normalize
+    from tensorly.tt_tensor import tt_to_tensor, pad_tt_rank
+    from tensorly.tr_tensor import tr_to_tensor
+    from tensorly.parafac2_tensor import Parafac2Tensor, parafac2_normalise, parafac2_to_slice
+    from tensorly.preprocessing import svd_compress_tensor_slices, svd_decompress_parafac2_tensor
+    from tensorly.cp_tensor import CPTensor
+    from tensorly.tenalg.svd import svd_interface
+
     def sh(arrs):
         return tuple(tuple(a.shape) for a in arrs)
+
+    def finite(*arrs):
+        return all(np.all(np.isfinite(np.asarray(a, dtype=float))) for a in arrs)
+
+    # --- tucker_normalize (toleranced; square-root tape)
     for it in range(60 * mult):
         core, fs, feat = gen_tucker(rng, float_=True)
+        st, out = call(tucker_normalize, TuckerTensor((core.copy(), cps(fs))))
+        chk.hist("outcome", st)
+        if st == "ok" and finite(out[0], *out[1]) and all(np.asarray(f).ndim == 2 for f in out[1]):
+            tape = [np.sqrt(np.sum(f * f, axis=0)) for f in fs]
+            tl_ = "[" + "; ".join(qrow(t) for t in tape) + "]"
+            emit(lambda: f"QTkNorm {tl_} {qtens(core)} {qmats(fs)} ({qtens(out[0])}, {qmats([np.asarray(f) for f in out[1]])})",
+                     ("tucker_normalize", sh(fs), feat))
         judge("tucker_normalize", {"core": core, "fs": fs}, (sh(fs), feat))
+    # --- tucker_to_tensor, tucker_mode_dot (exact)
     for it in range(60 * mult):
         core, fs, feat = gen_tucker(rng)
         N = len(fs)
-        for mode in range(N):
-            for kind in ("mat", "vec", "veck"):
+        st, out = call(tucker_to_tensor, TuckerTensor((core.copy(), cps(fs))))
+        exp = "(mk [99999]%nat (@nil Z))" if st != "ok" or not integral(out) else ztens(out)
+        emit(lambda: f"ZTkDense {ztens(core)} {zmats(fs)} {exp}", ("tucker_to_tensor", sh(fs), feat))
+        chk.count(key=("tucker_to_tensor", sh(fs), feat))
+        if st != "ok" or not close(out, dense_tucker(core, fs), exact=True):
+            chk.finding("tensorly.tucker_tensor.tucker_to_tensor", {"core": core, "fs": fs}, "tucker_to_tensor differs from the entry-wise definition", "tucker_to_tensor")
+        for mode in range(N + 1):
+            kinds = ["mat", "vec", "veck"] + (["badvec", "badmat"] if it % 4 == 0 else [])
+            for kind in kinds:
                 copy = rng.random() < 0.5
-                x = gen_operand(rng, fs[mode].shape[0], "vec" if kind == "veck" else kind)
-                kd = kind == "veck"
-                if kind == "vec" and N == 2:
-                    continue                      # a Tucker tensor needs two factors: the contraction result is rejected by the class
+                d = fs[mode].shape[0] if mode < N else 2
+                x = gen_operand(rng, d, "vec" if kind == "veck" else kind)
+                kd = kind == "veck" or (kind == "mat" and rng.random() < 0.3)
+                st, out = call(tucker_mode_dot, TuckerTensor((core.copy(), cps(fs))), x.copy(), mode, keep_dim=kd, copy=copy)
+                chk.hist("outcome", st); chk.hist("operand", kind); chk.hist("copy", copy)
+                if st != "ok":
+                    lit = "Err"
+                elif not integral(out[0], *out[1]) or any(np.asarray(f).ndim != 2 for f in out[1]):
+                    lit = "(Ok (mk [99999]%nat (@nil Z), (@nil (list (list Z)))))"
+                else:
+                    lit = f"(Ok ({ztens(out[0])}, {zmats([np.asarray(f) for f in out[1]])}))"
+                xl = f"(OpMat {zmat(x)})" if x.ndim == 2 else f"(OpVec {zrow(x)})"
+                emit(lambda: f"ZTkDot {ztens(core)} {zmats(fs)} {xl} {mode}%nat {C.boolc(kd)} {lit}", ("tucker_mode_dot", sh(fs), feat, mode, kind, kd, copy))
+                valid = mode < N and kind in ("mat", "vec", "veck") and not (kind == "vec" and N == 2)
+                if not valid:
+                    chk.count(key=("tucker_mode_dot-invalid", sh(fs), kind), nontrivial=False)
+                    if st == "ok":
+                        chk.finding("tensorly.tucker_tensor.tucker_mode_dot", {"core": core, "fs": fs, "x": x, "mode": mode, "keep_dim": kd, "copy": copy},
+                                    "tucker_mode_dot accepted an operand whose size does not match the mode / a contraction leaving one factor", "tucker_mode_dot_invalid")
+                    continue
                 inp = {"core": core, "fs": fs, "x": x, "mode": mode, "keep_dim": kd, "copy": copy, "x2": None}
                 shape2 = [f.shape[0] for f in fs]
                 if not copy:
                     shape2 = list(dense_mode_dot(np.zeros(shape2), x, mode, kd).shape)
                 m2 = rng.randrange(len(shape2)); k2 = rng.choice(["mat", "vec", "veck"])
-                if not (k2 == "vec" and len(shape2) <= 2) and copy:
+                if not (k2 == "vec" and len(shape2) <= 2):
                     inp.update(x2=gen_operand(rng, shape2[m2], "vec" if k2 == "veck" else k2), mode2=m2, keep_dim2=(k2 == "veck"))
                 judge("tucker_mode_dot", inp, (sh(fs), feat, mode, kind, copy))
+    # --- PARAFAC2: normalise (toleranced), decompress, compress -> decompress
     for it in range(50 * mult):
         w, fs, Ps, feat = gen_pf2(rng)
+        st, out = call(parafac2_normalise, Parafac2Tensor((w.copy(), cps(fs), cps(Ps))))
+        chk.hist("outcome", st)
+        if st == "ok" and finite(out[0], *out[1]):
+            inter = [fs[0] * w, fs[1], fs[2]]
+            tape = [np.sqrt(np.sum(a * a, axis=0)) for a in inter]
+            tl_ = "[" + "; ".join(qrow(t) for t in tape) + "]"
+            emit(lambda: f"QPf2Norm {tl_} {qrow(w)} {qmat(fs[0])} {qmat(fs[1])} {qmat(fs[2])} ({qrow(np.asarray(out[0]))}, {qmats([np.asarray(f) for f in out[1]])})",
+                     ("parafac2_normalise", sh(fs), feat))
+            if not same_arrays([np.asarray(p) for p in out[2]], Ps):
+                chk.finding("tensorly.parafac2_tensor.parafac2_normalise", {"w": w, "fs": fs, "Ps": Ps}, "parafac2_normalise changed the projections", "parafac2_normalise")
         judge("parafac2_normalise", {"w": w, "fs": fs, "Ps": Ps}, (sh(fs), sh(Ps), feat))
         Ls = [None if rng.random() < 0.3 else orth(rng, P.shape[0] + rng.randint(0, 2), P.shape[0]) for P in Ps]
         judge("svd_decompress_parafac2_tensor", {"w": w, "fs": fs, "Ps": Ps, "Ls": Ls}, (sh(fs), sh(Ps), feat))
         judge("svd_compress_decompress", {"w": w, "fs": fs, "Ps": Ps}, (sh(fs), sh(Ps), feat, "rt"))
+    # --- PARAFAC2 on integer data with signed partial permutations as projections / loadings (exact)
+    for it in range(40 * mult):
+        w, (A, B, Cm), Ps = gen_pf2_int(rng)
+        pf = (w.copy(), cps([A, B, Cm]), cps(Ps))
+        for i in range(len(Ps)):
+            st, out = call(parafac2_to_slice, pf, i)
+            exp = zmat(out) if st == "ok" and integral(out) and np.asarray(out).ndim == 2 else "[[(99999)%Z]]"
+            emit(lambda: f"ZPf2Slice {zrow(w)} {zmat(A)} {zmat(B)} {zmat(Cm)} {zmats(Ps)} {i}%nat {exp}", ("parafac2_to_slice", sh([A, B, Cm]), sh(Ps), i))
+            chk.count(key=("parafac2_to_slice", sh([A, B, Cm]), sh(Ps)))
+            if st != "ok" or not close(out, pf2_slices(w, A, B, Cm, Ps)[i], exact=True):
+                chk.finding("tensorly.parafac2_tensor.parafac2_to_slice", {"w": w, "fs": [A, B, Cm], "Ps": Ps, "i": i}, "parafac2_to_slice differs from (P_i B) diag(w a_i) C^T", "parafac2_to_slice")
+        Ls = [None if rng.random() < 0.3 else sperm(rng, P.shape[0] + rng.randint(0, 2), P.shape[0]) for P in Ps]
+        st, out = call(lambda: svd_decompress_parafac2_tensor(Parafac2Tensor(pf), [None if L is None else L.copy() for L in Ls]))
+        chk.hist("outcome", st)
+        if st == "ok" and integral(*out[2]) and all(np.asarray(p).ndim == 2 for p in out[2]):
+            lit = f"(Ok {zmats([np.asarray(p) for p in out[2]])})"
+        else:
+            lit = "Err" if st != "ok" else "(Ok [[[(99999)%Z]]])"
+        emit(lambda: f"ZDecomp {zrow(w)} {zmat(A)} {zmat(B)} {zmat(Cm)} {zmats(Ps)} {zopt_mats(Ls)} {lit}", ("svd_decompress", sh([A, B, Cm]), sh(Ps), tuple(L is None for L in Ls)))
+        judge("svd_decompress_parafac2_tensor", {"w": w, "fs": [A, B, Cm], "Ps": Ps, "Ls": Ls}, (sh([A, B, Cm]), sh(Ps), "int", tuple(L is None for L in Ls)))
+    # --- from_CPTensor (QR tape), svd_compress_tensor_slices (SVD tape, thresholds, max_rank)
     for it in range(40 * mult):
         R = rng.randint(1, 3)
         A = rint(rng, -3, 3, (rng.randint(1, 3), R)).astype(np.float64) / 2
         B = np.array([[rng.gauss(0, 1) for _ in range(R)] for _ in range(rng.randint(R, R + 2))])
         Cm = rint(rng, -3, 3, (rng.randint(1, 3), R)).astype(np.float64) / 4
         w = rint(rng, -2, 3, (R,)).astype(np.float64)
+        st, out = call(Parafac2Tensor.from_CPTensor, CPTensor((w.copy(), cps([A, B, Cm]))))
+        chk.hist("outcome", st)
+        if st == "ok" and finite(out[0], *out[1], *out[2]):
+            Qm, Rm = tl.qr(B.copy())
+            emit(lambda: f"QFromCP {qmat2(Qm)} {qmat2(Rm)} {qrow(w)} {qmat(A)} {qmat(B)} {qmat(Cm)} "
+                     f"({qrow(np.asarray(out[0]))}, {qmats([np.asarray(f) for f in out[1]])}, {qmats([np.asarray(p) for p in out[2]])})",
+                     ("from_CPTensor", sh([A, B, Cm])))
         judge("from_CPTensor", {"w": w, "fs": [A, B, Cm]}, (sh([A, B, Cm]),))
         K = rng.randint(1, 3)
         slices = [np.array([[rng.gauss(0, 1) for _ in range(K)] for _ in range(rng.randint(1, 5))]) for _ in range(rng.randint(1, 3))]
         judge("svd_compress_tensor_slices", {"slices": slices, "threshold": 0.0, "max_rank": rng.choice([None, K, K + 1])}, (sh(slices),))
+        # correspondence incl. truncating configurations (thresholds > 0, max_rank < n_cols): the model follows the count rule
+        thr = rng.choice([0.0, 0.0, 0.25, 0.5, 1.0, 1e-3])
+        mr = rng.choice([None, None, 1, K, K + 1])
+        st, out = call(svd_compress_tensor_slices, cps(slices), compression_threshold=thr, max_rank=mr)
+        chk.hist("outcome", st)
+        if st == "ok":
+            rl = K if mr is None else min(K, mr)
+            tapes, full = [], []
+            for X in slices:
+                if X.shape[0] <= rl and not thr:
+                    tapes.append("((@nil (list Q)), (@nil Q), (@nil (list Q)))"); full.append(False)
+                else:
+                    U, sv, Vh = svd_interface(X.copy(), n_eigenvecs=rl, method="truncated_svd")
+                    U, sv, Vh = np.asarray(U), np.asarray(sv), np.asarray(Vh)
+                    tapes.append(f"({qmat2(U)}, {qrow(sv)}, {qmat2(Vh)})")
+                    full.append(bool(len(sv) == min(X.shape) and U.shape[1] == len(sv) == Vh.shape[0]))
+            scores, loads = out
+            exp = "[" + "; ".join(f"({qmat2(np.asarray(S))}, {'None' if L is None else '(Some ' + qmat2(np.asarray(L)) + ')'})" for S, L in zip(scores, loads)) + "]"
+            mrl = "None" if mr is None else f"(Some {mr}%nat)"
+            emit(lambda: f"QCompress {qmats(slices)} {C.q(thr)} {mrl} [{'; '.join(tapes)}] [{'; '.join(C.boolc(b) for b in full)}] {exp}",
+                     ("svd_compress_tensor_slices", sh(slices), thr, mr))
+            chk.count(key=("svd_compress-corr", sh(slices), thr, mr))
+    # --- tt_to_tensor / tr_to_tensor, pad_tt_rank (exact): TT and TR of order 1-4
     for it in range(80 * mult):
         ring = it % 2 == 1
         cores = gen_tt(rng, ring)
+        if not ring or len(cores) >= 2:           # tr_to_tensor on a single core is outside this property
+            st, out = call(tr_to_tensor if ring else tt_to_tensor, cps(cores))
+            exp = "(mk [99999]%nat (@nil Z))" if st != "ok" or not integral(out) else ztens(out)
+            emit(lambda: f"ZTTDense {C.boolc(ring)} {ztens_list(cores)} {exp}", ("tr_to_tensor" if ring else "tt_to_tensor", sh(cores)))
+            chk.count(key=("tt_to_tensor", ring, sh(cores)))
+            if st != "ok" or not close(out, dense_tt(cores, ring), exact=True):
+                chk.finding("tensorly.tr_tensor.tr_to_tensor" if ring else "tensorly.tt_tensor.tt_to_tensor", {"cores": cores},
+                            "dense reconstruction differs from the chain-product definition", "tt_to_tensor")
         for npad in (1, rng.randint(2, 3)):
-            judge("pad_tt_rank", {"cores": cores, "n_padding": npad, "pad_boundaries": ring, "ring": ring}, (sh(cores), npad, ring), nontrivial=len(cores) > 1)
+            for pb in ((ring,) if it % 4 < 2 else (ring, not ring)):
+                st, out = call(pad_tt_rank, cps(cores), n_padding=npad, pad_boundaries=pb)
+                chk.hist("outcome", st)
+                if st == "ok" and integral(*out) and all(np.asarray(g).ndim == 3 for g in out):
+                    lit = f"(Ok {ztens_list([np.asarray(g) for g in out])})"
+                else:
+                    lit = "Err" if st != "ok" else "(Ok [mk [99999]%nat (@nil Z)])"
+                emit(lambda: f"ZPad {ztens_list(cores)} {npad}%nat {C.boolc(pb)} {lit}", ("pad_tt_rank", sh(cores), npad, pb))
+                # the represented tensor: a train keeps entry (0,0) of the chain under either option, a ring its trace
+                judge("pad_tt_rank", {"cores": cores, "n_padding": npad, "pad_boundaries": pb, "ring": ring}, (sh(cores), npad, pb, ring), nontrivial=len(cores) > 1 or pb)
 
 
 def _rebuild(o):
@@ -797,6 +1111,9 @@ def replay(payload):
     if name not in PRED:
         print("replay: predicate", name, "has no stand-alone replay; re-run ./check C04")
         return 1
-    msg = PRED[name](inp)
+    try:
+        msg = PRED[name](inp)
+    except Exception as e:  # noqa
+        msg = f"malformed result: {type(e).__name__}: {e}"
     print("replay:", name, "->", msg or "holds")
     return 1 if msg else 0
